@@ -25,6 +25,7 @@ TRUSTED = [
     "runtime formatting: errno.errorcode names, '%s, %s' % (type, value) of an exception, as_bytes/UTF-8 encoding of the message; the traceback file/line in the 'couldn't exec' message is canonicalised to '?'",
     "config.uid is an integer (options.py converts user names with name_to_uid at parse time); the pwd.getpwnam branch of drop_privileges is outside the model",
     "close_fd swallows OSError (EBADF for a descriptor that is not open is the normal case); 'closed' in the theorems means the close was attempted and raised nothing but OSError",
+    "server sections: ConfigParser's stripping of values, the split of `port=host:port` at the last colon with the integer conversion (datatypes.inet_address) and os.path's normalisation of the socket path (normalize_path) are inputs of the model (host as written, port number, normalised path); the model covers host lower-casing / '*', the order of server_configs, the choice of options.serverurl and the AUTO test of a program's serverurl",
 ]
 ASSUMPTIONS = [
     "faults are injected at the os/pwd/grp boundary; exception classes: OSError(errno), KeyError, one other exception class (RuntimeError)",
@@ -38,7 +39,11 @@ RULE = ("cases = configuration x fault table. Configurations: a structured produ
         "different environment= (none, a key of its own, a key every program sets differently, a key of the [supervisord] environment, SUPERVISOR_* and "
         "os.environ keys, %(program_name)s / %(process_num)d values), with and without a [supervisord] environment, file order and processing order "
         "(priorities) varied (2 and 3 programs: small-scope exhaustive), parsed by the real ServerOptions, every resulting process configuration spawned "
-        "through the real _spawn_as_child and its execve environment compared with what the file promises THAT program. Fault tables: none; every single call index x every exception class "
+        "through the real _spawn_as_child and its execve environment compared with what the file promises THAT program; server sections of the file "
+        "(none / unix / inet / both in either file order / several of one family, named sections; inet `host:port`, `*:port`, `:port`, `port`, upper-case and "
+        "IPv6 hosts; absolute, unnormalised, relative, ~ and padded socket paths; with and without authentication) x per-program serverurl (unset, AUTO in several "
+        "spellings, explicit http / unix urls, empty) x program / eventlistener / fcgi-program, options.serverurl left as the REAL realize() computed it, "
+        "SUPERVISOR_SERVER_URL in the execve environment compared with the documented choice computed from the file. Fault tables: none; every single call index x every exception class "
         "(exhaustive); sampled pairs (thorough: all pairs for small configurations). A case is non-trivial when at least "
         "one optional step (uid, directory, umask, fcgi, fault) is present; distinct = distinct (config, faults)")
 TECHNIQUE = ("Lean 4 theorems over a script model of _spawn_as_child whose conditions, constants, message texts and "
@@ -46,7 +51,11 @@ TECHNIQUE = ("Lean 4 theorems over a script model of _spawn_as_child whose condi
              "methods under a recording os/pwd/grp proxy with exhaustive single-fault injection")
 LEVEL_TEXT = ("exec_preconditions, no_exec_after_failure, never_returns, the environment composition (env_composition; configured_env_independent / "
               "exec_env_of_program: the configured environment of a program is the [supervisord] environment overlaid with its own section's, for any "
-              "number and order of other programs, over the extracted per-process copy in read_config) and "
+              "number and order of other programs, over the extracted per-process copy in read_config), the server url a child is told "
+              "(server_url_choice / unix_server_preferred / inet_server_fallback: for every list of server configurations realize()'s two loops with their "
+              "extracted guard, break, format and default give unix://<file of the first unix server>, else http://host:port of the last inet server with "
+              "localhost for an empty host, else none; child_told_constructed_url / child_told_explicit_url: that, or the program's own serverurl, is the "
+              "SUPERVISOR_SERVER_URL of the execve environment) and "
               "failure_message_and_127 (every errno at setgroups/setgid/setuid/chdir, KeyError at the password lookup, every "
               "exception at umask/execve) are proved for every configuration and every fault oracle (no bound on minfds, "
               "environment size or number of faults)")
